@@ -114,8 +114,10 @@ def formats(tier: str):
     mb = 6 if big else 5
     out = []
     for (es, nbits, inf, nk, eo) in gen_num.efloat_formats(mb, (-1, 0, 2)):
+        if es > 4:
+            continue        # 2^16 and beyond: the relational checks cross-multiply and leave TLC's integers
         out.append(('table', EFloatContext(es, nbits, inf, nk, eo)))
-    for es, nbits in ((2, 4), (3, 5), (2, 6), (3, 7), (4, 8), (5, 8)):
+    for es, nbits in ((2, 4), (3, 5), (2, 6), (3, 7), (4, 8), (3, 8)):
         if nbits <= (8 if big else 6):
             out.append(('table', fp.IEEEContext(es, nbits)))
     for signed in (True, False):
@@ -127,7 +129,7 @@ def formats(tier: str):
     for scale in (-2, 0, 1):
         for nbits in range(2, (8 if big else 6) + 1):
             out.append(('table', SMFixedContext(scale, nbits)))
-    for nbits in range(1, 5 if not big else 6):
+    for nbits in range(1, 5):
         for eo in (-1, 0, 2):
             out.append(('table', ExpContext(nbits, eo)))
     for p in (1, 2, 3, 4):
